@@ -149,15 +149,42 @@ func extType(t rt.TypeRef) string {
 // progRender renders one directive function and collects the out-of-line
 // declarations it needs.
 type progRender struct {
-	s      *rt.Spec
-	n      names
-	argK   int
-	pre    []string // statements before the directive (func vars, holders)
-	decls  []string // package-level declarations in the program file
-	extFns []string // functions to add to package ext
+	s        *rt.Spec
+	n        names
+	argK     int
+	bareK    int
+	poison   []string
+	lastBare string
+	pre      []string // statements before the directive (func vars, holders)
+	decls    []string // package-level declarations in the program file
+	extFns   []string // functions to add to package ext
 }
 
-func (pr *progRender) wrap(expr string) string {
+var reIdent = regexp.MustCompile(`^[A-Za-z_][A-Za-z0-9_]*$`)
+
+func (pr *progRender) wrap(expr string) string { return pr.wrapz(expr, "") }
+
+// wrapz is wrap for values that have a recognisable "poison" value zero: in
+// bare mode the local holding the value is overwritten with zero by the side
+// effect of the LAST argument expression of the directive, so a generator
+// that reads a bare identifier late (instead of once, in source order)
+// delivers the poison instead of the value.
+func (pr *progRender) wrapz(expr, zero string) string {
+	if !pr.s.Wrap && pr.s.Bare && !reIdent.MatchString(expr) && !strings.HasPrefix(expr, "&") {
+		if zero != "" {
+			defer func() { pr.poison = append(pr.poison, pr.lastBare+" = "+zero) }()
+		}
+		// store the value in a local named like an identifier the generated
+		// code introduces, and pass the bare identifier
+		name := shadowNames[pr.bareK%len(shadowNames)]
+		if pr.bareK >= len(shadowNames) {
+			name = fmt.Sprintf("%s%d", name, pr.bareK/len(shadowNames))
+		}
+		pr.bareK++
+		pr.pre = append(pr.pre, name+" := "+expr)
+		pr.lastBare = name
+		return name
+	}
 	if !pr.s.Wrap {
 		return expr
 	}
@@ -268,6 +295,9 @@ func (pr *progRender) render() string {
 	}
 
 	concOpt := func() {
+		if s.Bare && !s.Wrap {
+			return // rendered last, see below
+		}
 		switch {
 		case strings.HasPrefix(s.Conc, "const:"):
 			k := strings.TrimPrefix(s.Conc, "const:")
@@ -284,7 +314,14 @@ func (pr *progRender) render() string {
 				var ps []string
 				for k, p := range s.Params {
 					mk, _ := pHelpers(p)
-					ps = append(ps, pr.wrap(fmt.Sprintf("%s(env.Param(%d))", mk, k)))
+					e := fmt.Sprintf("%s(env.Param(%d))", mk, k)
+					if k%2 == 1 {
+						// written as a conversion: the argument's type is then a
+						// different go/types object than the helper's result type,
+						// although identical (matters for identity-keyed lookups)
+						e = fmt.Sprintf("(%s)(%s)", pr.typ(p), e)
+					}
+					ps = append(ps, pr.wrapz(e, mk+"(0)"))
 				}
 				return n.cff + ".Params(" + strings.Join(ps, ", ") + ")"
 			})
@@ -327,7 +364,7 @@ func (pr *progRender) render() string {
 					extBody = taskBody(ts, "env", extHelpers)
 				}
 				fe := pr.fnExpr(ts.Sp, ts.Unit, sig(n, ts.Ctx, ins, outs, ts.Err), taskBody(ts, "env", pHelpers), extSig, extBody)
-				parts := []string{pr.wrap(fe)}
+				parts := []string{pr.wrapz(fe, "nil")}
 				var topts []func() string
 				if ts.Pred != nil {
 					topts = append(topts, func() string {
@@ -347,7 +384,7 @@ func (pr *progRender) render() string {
 						var fs []string
 						for k, o := range ts.Out {
 							mk, _ := pHelpers(o)
-							fs = append(fs, pr.wrap(fmt.Sprintf("%s(env.Fallback(%d, %d))", mk, ts.Unit, k)))
+							fs = append(fs, pr.wrapz(fmt.Sprintf("%s(env.Fallback(%d, %d))", mk, ts.Unit, k), mk+"(0)"))
 						}
 						return n.cff + ".FallbackWith(" + strings.Join(fs, ", ") + ")"
 					})
@@ -439,7 +476,7 @@ func (pr *progRender) render() string {
 				if sl.Named {
 					coll = fmt.Sprintf("mkNL_%s(env.Coll(%d))", sl.Elem.Suffix(), sl.Coll)
 				}
-				parts := []string{pr.wrap(fe), pr.wrap(coll)}
+				parts := []string{pr.wrapz(fe, "nil"), pr.wrapz(coll, "nil")}
 				if sl.End != nil {
 					parts = append(parts, n.cff+".SliceEnd("+pr.wrap(endExpr(sl.End))+")")
 				}
@@ -456,7 +493,7 @@ func (pr *progRender) render() string {
 					body = "return " + body
 				}
 				fe := pr.fnExpr(mp.Sp, mp.Unit, sig(n, mp.Ctx, ins, nil, mp.Err), []string{body}, "", nil)
-				parts := []string{pr.wrap(fe), pr.wrap(fmt.Sprintf("mkM_%s(env.Coll(%d))", mp.Elem.Suffix(), mp.Coll))}
+				parts := []string{pr.wrapz(fe, "nil"), pr.wrapz(fmt.Sprintf("mkM_%s(env.Coll(%d))", mp.Elem.Suffix(), mp.Coll), "nil")}
 				if mp.End != nil {
 					parts = append(parts, n.cff+".MapEnd("+pr.wrap(endExpr(mp.End))+")")
 				}
@@ -477,6 +514,15 @@ func (pr *progRender) render() string {
 		if s.Shadow {
 			o = reEnv.ReplaceAllString(o, shadowNames[i%len(shadowNames)])
 		}
+		if s.Paren {
+			o = "(" + o + ")"
+		}
+		rendered = append(rendered, o)
+	}
+	if s.Bare && !s.Wrap {
+		// the last argument expression of the directive poisons every bare local
+		body := strings.Join(pr.poison, "; ")
+		o := fmt.Sprintf("%s.Concurrency(rt.After(env.ConcN(), func() { %s }))", n.cff, body)
 		if s.Paren {
 			o = "(" + o + ")"
 		}
@@ -504,8 +550,11 @@ func (pr *progRender) render() string {
 	}
 	x.ind++
 	if s.Encl == "closure" {
-		x.f("return func() (err error) {")
+		// (the result is deliberately not named err: the C16 oracle recognises
+		// generated closures by their "func() (err error)" shape)
+		x.f("return func() (res error) {")
 		x.ind++
+		x.f("var err error")
 	}
 	if s.Shadow {
 		for _, nm := range shadowNames {
